@@ -559,6 +559,8 @@ pub struct Property {
     pub rule: &'static str,
     pub assumptions: Vec<&'static str>,
     pub subs: Vec<Box<dyn Fn(Tier) -> Sub>>,
+    /// decodes a raw libFuzzer artefact into (sub-property name, case) for `--replay`
+    pub raw_decoder: Option<Box<dyn Fn(&[u8]) -> (String, Value)>>,
 }
 
 impl Property {
@@ -568,7 +570,12 @@ impl Property {
             rule,
             assumptions: vec![],
             subs: vec![],
+            raw_decoder: None,
         }
+    }
+    pub fn raw(mut self, f: impl Fn(&[u8]) -> (String, Value) + 'static) -> Self {
+        self.raw_decoder = Some(Box::new(f));
+        self
     }
     pub fn assume(mut self, a: &'static str) -> Self {
         self.assumptions.push(a);
@@ -631,9 +638,18 @@ fn find_sub<'a>(subs: &'a [Sub], name: &str) -> Option<&'a Sub> {
 }
 
 /// Evaluate one replay file. Returns Ok(None) if it passes, Ok(Some((sig, detail))) if it fails.
-fn eval_replay(subs: &[Sub], path: &Path) -> Result<Option<(String, String)>, String> {
-    let txt = std::fs::read_to_string(path).map_err(|e| format!("{}: {}", path.display(), e))?;
-    let v: Value = serde_json::from_str(&txt).map_err(|e| format!("{}: {}", path.display(), e))?;
+fn eval_replay(subs: &[Sub], path: &Path, raw: &Option<Box<dyn Fn(&[u8]) -> (String, Value)>>) -> Result<Option<(String, String)>, String> {
+    let bytes = std::fs::read(path).map_err(|e| format!("{}: {}", path.display(), e))?;
+    let parsed: Option<Value> = std::str::from_utf8(&bytes).ok().and_then(|t| serde_json::from_str::<Value>(t).ok()).filter(|v| v.get("sub").is_some() && v.get("case").is_some());
+    let v: Value = match (parsed, raw) {
+        (Some(v), _) => v,
+        // not one of our JSON replay files: a raw fuzzer artefact
+        (None, Some(dec)) => {
+            let (sub, case) = dec(&bytes);
+            json!({"sub": sub, "case": case})
+        },
+        (None, None) => return Err(format!("{}: neither a JSON replay file nor a decodable fuzz artefact", path.display())),
+    };
     let sub_name = v["sub"].as_str().ok_or_else(|| format!("{}: no sub", path.display()))?;
     let sub = find_sub(subs, sub_name).ok_or_else(|| format!("{}: unknown sub {}", path.display(), sub_name))?;
     match (sub.replay)(&v["case"])? {
@@ -665,7 +681,7 @@ pub fn main_for(prop: Property) -> ! {
 
     // --replay: evaluate exactly one file, bypassing proptest
     if let Some(path) = &args.replay {
-        match eval_replay(&subs, path) {
+        match eval_replay(&subs, path, &prop.raw_decoder) {
             Ok(None) => {
                 println!("replay {}: property held", path.display());
                 std::process::exit(0);
@@ -711,7 +727,7 @@ pub fn main_for(prop: Property) -> ! {
                 }
             }
             replayed += 1;
-            match eval_replay(&subs, &f) {
+            match eval_replay(&subs, &f, &prop.raw_decoder) {
                 Ok(None) => {},
                 Ok(Some((sig, detail))) => {
                     if is_known(&known, &sig) {
@@ -921,6 +937,8 @@ pub fn main_for(prop: Property) -> ! {
     }
 
     let wall = start.elapsed().as_secs_f64();
+    // statistics of the coverage-guided campaign that ./check ran before this binary (thorough tier)
+    let fuzz_stats: Value = std::env::var("VERIF_FUZZ_STATS").ok().and_then(|p| std::fs::read_to_string(p).ok()).and_then(|t| serde_json::from_str(&t).ok()).unwrap_or(Value::Null);
     let ev = json!({
         "property_id": id,
         "tier": tier.name(),
@@ -939,6 +957,7 @@ pub fn main_for(prop: Property) -> ! {
             "replay_failures": corpus_violations,
             "exhaustive": false,
             "exhaustive_subs": exhaustive_subs,
+            "fuzz": fuzz_stats,
         },
         "assumptions": prop.assumptions,
         "wall_s": wall,
